@@ -25,14 +25,33 @@ KNOBS = {"p_slow_handler": 0.3, "p_sized_strategy": 0.15, "p_attempt_timeout": 0
          "p_metric": 0.8, "p_log": 0.8}
 RULE = ("seeded swarm: strategy tables with present/absent entries, context-style and legacy signatures mixed, classifier "
         "returning ErrorClass or Classification(retry_after_s), raw strategy returns from {grid, 0, > remaining, NaN, "
-        "+/-inf, negative}; distinct by trace shape; non-trivial = >=1 failed attempt")
+        "+/-inf, negative}; 2-3 overlapping async calls on one policy object; distinct by trace shape; non-trivial = >=1 failed attempt")
 COMPONENTS = common.REAL_COMPONENTS
-ASSUMPTIONS = ["callbacks take zero virtual time so remaining_s is evaluated at the failure instant", "sampling, not proof"]
+ASSUMPTIONS = ["callbacks take zero virtual time so remaining_s is evaluated at the failure instant", "a sleeper may return late or early (never negative time)", "sampling, not proof"]
 BUDGETS = {"quick": (60000, 90), "thorough": (2800000, 285)}
 
 
 def gen(seed, tier="quick"):
-    return G.gen_retry(seed, KNOBS)
+    import random
+    scn = G.gen_retry(seed, KNOBS)
+    r = random.Random(seed ^ 0xC05)
+    if r.random() < 0.3:
+        # an early-returning sleeper (instant, or a fraction of the request): after a delay that was capped at the
+        # remaining time the deadline is then NOT used up, another retry is granted and the strategy is told the
+        # previously *applied* delay -- with an honest sleeper a capped sleep always ends the run
+        for c in scn["calls"]:
+            c["overshoot"] = [r.choice([-10**13, -10**13, -1, -250_000, 0]) for _ in range(r.randint(1, 3))]
+    if scn["mode"] == "async" and len(scn["calls"]) > 1 and scn["entry"] != "decorator" and r.random() < 0.5:
+        # overlapping calls on ONE policy object: the previously applied delay, the remaining time and the strategy
+        # arguments are per call -- state parked on the shared policy object only shows when calls interleave
+        scn["concurrent"] = True
+        for c in scn["calls"]:
+            c.pop("before", None)
+            c["start_us"] = r.choice([0, 0, 1000, 250_000, 600_000])
+            for st in c["attempts"]:
+                if st.get("dur", 0) == 0:
+                    st["dur"] = r.choice([0, 1000, 250_000, 500_000])
+    return scn
 
 
 def _eq(a, b):
